@@ -54,7 +54,7 @@ func tmplEscape(s string) string {
 func litJSON(v cty.Value) interface{} {
 	t := v.Type()
 	switch {
-	case v.IsNull():
+	case v.IsNull() || !v.IsKnown():
 		return nil
 	case t == cty.String:
 		return tmplEscape(v.AsString())
